@@ -168,6 +168,16 @@ func judge(out *pipe.Outcome, ix *pipe.Index) pipe.Verdict {
 	v.AddJudged("", j)
 	v.Inconclusive = inc
 	v.Nontrivial = j.ByHow["stopandwait-returns-judged"] > 0 && j.Obligations > 3
+	// what the two round-4 input classes actually produced in this history
+	for i := range out.Evs {
+		e := &out.Evs[i]
+		if e.Kind == rig.KNote && e.Note == "persist callbacks held" {
+			v.Stats["stops_requested_while_a_finished_sources_persist_callbacks_were_held"]++
+		}
+		if e.Kind == rig.KDstAck && e.Role == "dst" && len(e.Acks) > 1 && out.Sc.Engine == "v1" {
+			v.Stats["default_engine_destination_responses_carrying_several_acks"]++
+		}
+	}
 	// class of instant: how much was in flight when the stop was requested
 	inflight := "idle"
 	for i := range out.Evs {
